@@ -42,6 +42,20 @@ def regex_tokenise(s, allow_empty, acceptable):
 C19_FLAGS = [(True, None), (False, None), (False, 'm'), (True, 'mJ')]
 
 
+class _LoudInt(int):
+    """an int subclass whose str() is not its decimal form"""
+    def __str__(self):
+        return 'loud'
+
+
+import enum as _enum
+_IE = _enum.IntEnum('_IE', {'THREE': 3})
+_IF = _enum.IntFlag('_IF', {'FOUR': 4})
+# integers that are not plain int objects -> how the replay file names them
+INT_KINDS = {True: 'bool', False: 'bool', _LoudInt(7): 'int subclass with its own __str__', _IE.THREE: 'IntEnum member', _IF.FOUR: 'IntFlag member'}
+_KIND_VALUES = {('bool', 1): True, ('bool', 0): False, ('int subclass with its own __str__', 7): _LoudInt(7), ('IntEnum member', 3): _IE.THREE, ('IntFlag member', 4): _IF.FOUR}
+
+
 def c19_cases(rng, tier):
     alpha = ['\x1b', '[', '1', ';', 'm', 'J', 'a']
     maxlen = 5 if tier == 'quick' else 6
@@ -100,6 +114,19 @@ def c19_run(rep, rng, tier):
         mseqs = {k: [(to_str(b), (chr(t[0]) if t else '')) for (b, t) in l] for (k, l) in a[1]}
         if munf != unf or mseqs != seqs:
             div.append({'case': payload, 'what': 'tokenizer', 'impl': [unf, seqs], 'model': [munf, mseqs]})
+    # a str SUBCLASS as input stands for its str value: an AnsiStr overrides len / indexing / == with text-level meanings,
+    # the parser must read the raw string (as set_ansi_str does)
+    from ansi_string import AnsiStr as _AnsiStr
+    for w in ('abc', '', 'a\x1b[2Jb', '\x1b[31mx', 'x\x1b['):
+        for sett in ((), ('bold',), ('red', '[1;4')):
+            a = _AnsiStr(w, *sett)
+            raw = str.__str__(a)
+            for (ae, acc) in C19_FLAGS:
+                payload = {'input': 'AnsiStr(%r, *%r) with str value %r' % (w, sett, raw), 'allow_empty_terminator': ae, 'acceptable_terminators': acc, 'ansistr': [w, list(sett)]}
+                rep.count(payload, True)
+                m = c19_ansistr(a, raw, ae, acc)
+                if m:
+                    viol.append({'oracle': 'C19.subclass', 'case': payload, 'msg': m})
     # helpers
     helpers = [('cursor_up_str', 'A'), ('cursor_down_str', 'B'), ('cursor_forward_str', 'C'), ('cursor_backward_str', 'D'),
                ('cursor_back_str', 'D'), ('cursor_next_line_str', 'E'), ('cursor_previous_line_str', 'F'),
@@ -109,28 +136,32 @@ def c19_run(rep, rng, tier):
     hreqs, hmeta = [], []
     for name, fin in helpers:
         fn = getattr(ansi_string, name, None) or getattr(_mod, name)
-        for n in ns:
-            payload = {'helper': name, 'n': n}
+        for n in ns + list(INT_KINDS):
+            payload = {'helper': name, 'n': int(n)}
+            if type(n) is not int:
+                payload['kind'] = INT_KINDS[n]
             rep.count(payload, True)
             out = fn(n)
-            exp = '\x1b[' + str(n) + fin
+            exp = '\x1b[%d' % n + fin          # "its decimal arguments": whatever kind of integer is passed
             if out != exp:
                 viol.append({'oracle': 'C19.helper', 'case': payload, 'msg': '%s(%d) = %r, expected %r' % (name, n, out, exp)})
                 continue
             p = ParsedAnsiControlSequenceString(out)
-            if p.unformatted_str != '' or [(q.sequence, q.terminator) for v in p.sequences.values() for q in v] != [(str(n), fin)]:
+            if p.unformatted_str != '' or [(q.sequence, q.terminator) for v in p.sequences.values() for q in v] != [('%d' % n, fin)]:
                 viol.append({'oracle': 'C19.helper', 'case': payload, 'msg': 'parser does not recognise %r as one sequence' % out})
-            hreqs.append([8, n, ord(fin)])
+            hreqs.append([8, int(n), ord(fin)])
             hmeta.append((payload, out))
     fn = getattr(ansi_string, 'cursor_position_str', None) or _mod.cursor_position_str
-    for r_ in ns[:30]:
-        for c_ in (0, 1, 7, -2, 1000):
-            payload = {'helper': 'cursor_position_str', 'row': r_, 'column': c_}
+    for r_ in ns[:30] + list(INT_KINDS):
+        for c_ in (0, 1, 7, -2, 1000, True):
+            payload = {'helper': 'cursor_position_str', 'row': int(r_), 'column': int(c_)}
+            if type(r_) is not int or type(c_) is not int:
+                payload['kind'] = '%s, %s' % (INT_KINDS.get(r_, 'int') if type(r_) is not int else 'int', 'bool' if c_ is True else 'int')
             rep.count(payload, True)
             out = fn(r_, c_)
             if out != '\x1b[%d;%dH' % (r_, c_):
                 viol.append({'oracle': 'C19.helper', 'case': payload, 'msg': 'cursor_position_str gives %r' % out})
-            hreqs.append([8, r_, c_, ord('H')])
+            hreqs.append([8, int(r_), int(c_), ord('H')])
             hmeta.append((payload, out))
     for (payload, out), a in zip(hmeta, model.ask(hreqs, chunk=4000)):
         if to_str(a) != out:
@@ -138,10 +169,29 @@ def c19_run(rep, rng, tier):
     return viol, div
 
 
+def c19_ansistr(a, raw, ae, acc):
+    try:
+        p, q = ParsedAnsiControlSequenceString(a, ae, acc), ParsedAnsiControlSequenceString(raw, ae, acc)
+        obs = lambda x: (str.__str__(x.unformatted_str), {k: [(str.__str__(y.sequence), str.__str__(y.terminator)) for y in v] for k, v in x.sequences.items()},
+                         str.__str__(x.formatted_str))
+        if obs(p) != obs(q):
+            return 'parsing the AnsiStr gives %r, parsing its str value %r gives %r' % (obs(p), raw, obs(q))
+        if str.__str__(p.formatted_str) != raw:
+            return 'formatted_str %r is not the str value %r' % (p.formatted_str, raw)
+    except Exception as e:  # noqa
+        return 'raised %r' % e
+    return None
+
+
 def c19_replay(case):
     class R:     # minimal report stub
         def count(self, *a, **k): pass
         def bump(self, *a, **k): pass
+    if 'ansistr' in case:
+        from ansi_string import AnsiStr as _AnsiStr
+        a = _AnsiStr(case['ansistr'][0], *case['ansistr'][1])
+        m = c19_ansistr(a, str.__str__(a), case['allow_empty_terminator'], case['acceptable_terminators'])
+        return [m] if m else []
     if 'helper' in case:
         return c19_run_single_helper(case)
     s, ae, acc = case['input'], case['allow_empty_terminator'], case['acceptable_terminators']
@@ -165,7 +215,22 @@ def c19_run_single_helper(case):
     name = case['helper']
     fn = getattr(ansi_string, name, None) or getattr(_mod, name)
     if name == 'cursor_position_str':
-        return [] if fn(case['row'], case['column']) == '\x1b[%d;%dH' % (case['row'], case['column']) else ['helper output']
+        r_, c_ = case['row'], case['column']
+        k = case.get('kind', 'int, int').split(', ')
+        r_ = _KIND_VALUES.get((k[0], r_), r_)
+        c_ = True if k[-1] == 'bool' and c_ == 1 else c_
+        out = fn(r_, c_)
+        return [] if out == '\x1b[%d;%dH' % (r_, c_) else ['cursor_position_str gives %r' % out]
+    fin = {'cursor_up_str': 'A', 'cursor_down_str': 'B', 'cursor_forward_str': 'C', 'cursor_backward_str': 'D', 'cursor_back_str': 'D',
+           'cursor_next_line_str': 'E', 'cursor_previous_line_str': 'F', 'cursor_horizontal_absolute_str': 'G', 'erase_in_display_str': 'J',
+           'erase_in_line_str': 'K', 'scroll_up_str': 'S', 'scroll_down_str': 'T'}[name]
+    n = _KIND_VALUES.get((case.get('kind'), case['n']), case['n'])
+    out = fn(n)
+    if out != '\x1b[%d' % n + fin:
+        return ['%s gives %r' % (name, out)]
+    p = ParsedAnsiControlSequenceString(out)
+    if p.unformatted_str != '' or [(q.sequence, q.terminator) for v in p.sequences.values() for q in v] != [('%d' % n, fin)]:
+        return ['parser does not recognise %r as one sequence' % out]
     return []
 
 
